@@ -1,0 +1,296 @@
+//! Verification hooks for the concurrent cache internals (only with
+//! `--cfg mini_moka_verif`). Read-only except `verif_set_clock`.
+
+use super::{BaseCache, Inner};
+use crate::{
+    common::{
+        concurrent::{entry_info::EntryInfo, AccessTime},
+        deque::DeqNode,
+        time::Instant,
+        CacheRegion,
+    },
+    verif::MockClock,
+};
+
+use std::{
+    borrow::Borrow,
+    collections::{HashMap, HashSet},
+    hash::{BuildHasher, Hash},
+    sync::{atomic::Ordering, Arc},
+};
+
+/// Names one of the internal queues.
+#[derive(Clone, Copy, Debug, PartialEq, Eq)]
+pub enum VerifDeque {
+    Window,
+    Probation,
+    Protected,
+    WriteOrder,
+}
+
+/// What the cache physically stores beside a key and a value.
+#[derive(Clone, Copy, Debug, PartialEq, Eq)]
+pub struct VerifEntryMeta {
+    pub policy_weight: u32,
+    pub is_admitted: bool,
+    pub is_dirty: bool,
+    pub has_access_order_node: bool,
+    pub has_write_order_node: bool,
+}
+
+impl<K, V, S> BaseCache<K, V, S> {
+    pub(crate) fn verif_set_clock(&self) -> MockClock {
+        let (clock, handle) = MockClock::new_pair();
+        let now = Instant::new(clock.now());
+        {
+            let mut exp_clock = self
+                .inner
+                .expiration_clock
+                .write()
+                .expect("lock poisoned");
+            *exp_clock = Some(clock);
+            self.inner
+                .has_expiration_clock
+                .store(true, Ordering::SeqCst);
+        }
+        // The housekeeper took its first deadline from the wall clock. Re-base it
+        // on the mock clock, as if the mock clock had been there from the start.
+        if let Some(hk) = &self.housekeeper {
+            hk.verif_rebase(now);
+        }
+        handle
+    }
+
+    pub(crate) fn verif_is_sync_running(&self) -> bool {
+        self.housekeeper
+            .as_ref()
+            .map(|hk| hk.verif_is_sync_running())
+            .unwrap_or(false)
+    }
+
+    pub(crate) fn verif_channel_lens(&self) -> (usize, usize) {
+        (self.inner.read_op_ch.len(), self.inner.write_op_ch.len())
+    }
+}
+
+impl<K, V, S> Inner<K, V, S>
+where
+    K: Hash + Eq,
+    S: BuildHasher + Clone,
+{
+    pub(crate) fn verif_map_len(&self) -> usize {
+        self.cache.len()
+    }
+
+    pub(crate) fn verif_for_each_entry(&self, mut f: impl FnMut(&K, &V, VerifEntryMeta)) {
+        for r in self.cache.iter() {
+            let entry = r.value();
+            let meta = VerifEntryMeta {
+                policy_weight: entry.policy_weight(),
+                is_admitted: entry.is_admitted(),
+                is_dirty: entry.is_dirty(),
+                has_access_order_node: entry.access_order_q_node().is_some(),
+                has_write_order_node: entry.write_order_q_node().is_some(),
+            };
+            f(r.key(), &entry.value, meta);
+        }
+    }
+
+    pub(crate) fn verif_deque_keys(&self, which: VerifDeque, mut f: impl FnMut(&K)) {
+        let deqs = self.deques.lock().expect("lock poisoned");
+        match which {
+            VerifDeque::Window => {
+                if let Ok(nodes) = deqs.window.verif_walk() {
+                    nodes
+                        .iter()
+                        .for_each(|n| f(unsafe { n.as_ref().element.key() }));
+                }
+            }
+            VerifDeque::Probation => {
+                if let Ok(nodes) = deqs.probation.verif_walk() {
+                    nodes
+                        .iter()
+                        .for_each(|n| f(unsafe { n.as_ref().element.key() }));
+                }
+            }
+            VerifDeque::Protected => {
+                if let Ok(nodes) = deqs.protected.verif_walk() {
+                    nodes
+                        .iter()
+                        .for_each(|n| f(unsafe { n.as_ref().element.key() }));
+                }
+            }
+            VerifDeque::WriteOrder => {
+                if let Ok(nodes) = deqs.write_order.verif_walk() {
+                    nodes
+                        .iter()
+                        .for_each(|n| f(unsafe { n.as_ref().element.key() }));
+                }
+            }
+        }
+    }
+
+    pub(crate) fn verif_sketch_enabled(&self) -> bool {
+        self.frequency_sketch_enabled.load(Ordering::Acquire)
+    }
+
+    pub(crate) fn verif_sketch_resets(&self) -> u32 {
+        self.frequency_sketch
+            .read()
+            .expect("lock poisoned")
+            .verif_resets()
+    }
+
+    pub(crate) fn verif_frequency<Q>(&self, key: &Q) -> u8
+    where
+        Arc<K>: Borrow<Q>,
+        Q: Hash + Eq + ?Sized,
+    {
+        let hash = self.build_hasher.hash_one(key);
+        self.frequency_sketch
+            .read()
+            .expect("lock poisoned")
+            .frequency(hash)
+    }
+
+    /// Structural validity of the map/queue pair. Takes the maintenance lock.
+    /// With `quiescent == true` (no operation queued, no other thread running)
+    /// it also requires the map and the queues to describe the same entries.
+    /// Pointers stored in entries are only compared against the set of nodes
+    /// reachable from the queues, never dereferenced unless they are members.
+    pub(crate) fn verif_walk(&self, quiescent: bool) -> Result<(), String> {
+        let deqs = self.deques.lock().expect("lock poisoned");
+        let window = deqs.window.verif_walk()?;
+        let probation = deqs.probation.verif_walk()?;
+        let protected = deqs.protected.verif_walk()?;
+        let write_order = deqs.write_order.verif_walk()?;
+
+        let ao_sets: [HashSet<usize>; 3] = [
+            window.iter().map(|n| n.as_ptr() as usize).collect(),
+            probation.iter().map(|n| n.as_ptr() as usize).collect(),
+            protected.iter().map(|n| n.as_ptr() as usize).collect(),
+        ];
+        let wo_set: HashSet<usize> = write_order.iter().map(|n| n.as_ptr() as usize).collect();
+
+        // node address -> address of the EntryInfo the node holds
+        let mut ao_info: HashMap<usize, usize> = HashMap::new();
+        let mut ao_keys: HashSet<&K> = HashSet::new();
+        for n in window.iter().chain(probation.iter()).chain(protected.iter()) {
+            let node: &DeqNode<_> = unsafe { n.as_ref() };
+            let info: &EntryInfo<K> = node.element.entry_info();
+            ao_info.insert(n.as_ptr() as usize, info as *const EntryInfo<K> as usize);
+            let key: &K = node.element.key();
+            if !ao_keys.insert(key) && quiescent {
+                return Err("two access-order nodes hold the same key".to_string());
+            }
+            if quiescent && !self.cache.contains_key(key) {
+                return Err(
+                    "access-order node for a key that is not in the map (ghost node)".to_string(),
+                );
+            }
+        }
+        let mut wo_keys: HashSet<&K> = HashSet::new();
+        for n in write_order.iter() {
+            let node = unsafe { n.as_ref() };
+            let key: &K = node.element.key();
+            if !wo_keys.insert(key) && quiescent {
+                return Err("two write-order nodes hold the same key".to_string());
+            }
+            if quiescent && !self.cache.contains_key(key) {
+                return Err(
+                    "write-order node for a key that is not in the map (ghost node)".to_string(),
+                );
+            }
+        }
+
+        let mut ao_seen: HashSet<usize> = HashSet::new();
+        let mut wo_seen: HashSet<usize> = HashSet::new();
+        for r in self.cache.iter() {
+            let entry = r.value();
+            let info_addr = &**entry.entry_info() as *const EntryInfo<K> as usize;
+            if let Some(tagged) = entry.access_order_q_node() {
+                let (node, tag) = tagged.decompose();
+                let region = CacheRegion::from(tag);
+                let idx = match region {
+                    CacheRegion::Window => 0,
+                    CacheRegion::MainProbation => 1,
+                    CacheRegion::MainProtected => 2,
+                    CacheRegion::Other => {
+                        return Err("access-order node tagged with region Other".to_string())
+                    }
+                };
+                let a = node.as_ptr() as usize;
+                if !ao_sets[idx].contains(&a) {
+                    return Err(format!(
+                        "entry's access-order node is not a member of its {:?} queue (dangling)",
+                        region
+                    ));
+                }
+                if !ao_seen.insert(a) {
+                    return Err("two map entries share one access-order node".to_string());
+                }
+                if ao_info.get(&a) != Some(&info_addr) {
+                    return Err(
+                        "access-order node and map entry do not share their entry info".to_string(),
+                    );
+                }
+                if unsafe { node.as_ref().element.key() } != r.key() {
+                    return Err("access-order node holds a different key".to_string());
+                }
+            } else if quiescent && entry.is_admitted() {
+                return Err("admitted entry without an access-order node".to_string());
+            }
+            if let Some(node) = entry.write_order_q_node() {
+                let a = node.as_ptr() as usize;
+                if !wo_set.contains(&a) {
+                    return Err(
+                        "entry's write-order node is not a member of the write-order queue (dangling)"
+                            .to_string(),
+                    );
+                }
+                if !wo_seen.insert(a) {
+                    return Err("two map entries share one write-order node".to_string());
+                }
+                if unsafe { node.as_ref().element.key() } != r.key() {
+                    return Err("write-order node holds a different key".to_string());
+                }
+            } else if quiescent && entry.is_admitted() && self.time_to_live.is_some() {
+                return Err(
+                    "admitted entry without a write-order node although ttl is set".to_string(),
+                );
+            }
+            if quiescent {
+                if !entry.is_admitted() {
+                    return Err(
+                        "map holds an entry that maintenance neither admitted nor removed"
+                            .to_string(),
+                    );
+                }
+                if entry.is_dirty() {
+                    return Err("entry still marked dirty at quiescence".to_string());
+                }
+                if entry.last_modified().is_none() || entry.last_accessed().is_none() {
+                    return Err("entry without timestamps".to_string());
+                }
+            }
+        }
+        if quiescent {
+            let ao_total = window.len() + probation.len() + protected.len();
+            if ao_total != ao_seen.len() {
+                return Err(format!(
+                    "{} access-order nodes but {} map entries point to one",
+                    ao_total,
+                    ao_seen.len()
+                ));
+            }
+            if write_order.len() != wo_seen.len() {
+                return Err(format!(
+                    "{} write-order nodes but {} map entries point to one",
+                    write_order.len(),
+                    wo_seen.len()
+                ));
+            }
+        }
+        Ok(())
+    }
+}
